@@ -1,15 +1,17 @@
 import os
 ID = 'C11'
 LEVEL = 'other'
-CONTRACT_MODULES = ['contracts.forecasts', 'contracts.time_utils', 'contracts.regions', 'contracts.calc', 'contracts.catalogs']
+CONTRACT_MODULES = ['contracts.forecasts', 'contracts.time_utils', 'contracts.regions', 'contracts.calc', 'contracts.catalogs', 'contracts.fcfile']
 CONE = ['csep.core.forecasts.GriddedDataSet.scale', 'csep.core.forecasts.GriddedDataSet.data', 'lemma:csep.core.forecasts.GriddedDataSet.scale;scale;data', 'lemma:csep.core.forecasts.MarkedGriddedDataSet.marginals', 'csep.core.forecasts.GriddedForecast.scale_to_test_date',
-        'csep.core.forecasts.GriddedForecast.get_rates']
+        'csep.core.forecasts.GriddedForecast.get_rates', 'csep.core.forecasts.GriddedForecast.load_ascii']
 ORACLE_MODULES = ['rt.oracles_io']
 BOUNDED = os.path.exists(os.path.join(os.path.dirname(__file__), '..', 'rt', 'bounded_C11.py'))
 FLOAT_MODEL = 'R'
-TRUSTED = ['decimal_year as an abstract function of the instant (its own behaviour: C15 bounded)', 'lemma L2 (row sums and column sums add up to the total) from the lemma library', 'pyvc engine, z3 5.1']
-ASSUMPTIONS = ['proved: the rate lookup get_rates on a forecast over a lattice region (RI) with equally spaced magnitude edges - a point inside the half-open cell of active cell i with a magnitude inside bin k (lower edges included, upper edges excluded up to the documented tolerance, last magnitude bin open) gets the stored rate of (i, k) times the current scale factor; scaling is absolute; marginals add up', 'load_ascii / quadtree loaders (numpy.loadtxt, unique, file layout -> cells and rates) are NOT under proof: bounded stand-in only (generated forecast files, every row looked up at its lower corner and centre)']
-EXPLANATION = 'scale(v) replaces the factor and writes nothing else; data == stored rates x current factor; after any two scale calls data == original x last factor (never cumulative); scale_to_test_date sets the documented fraction inside (start, end) and leaves the object untouched outside; marginals are row / column sums'
+TRUSTED = ['decimal_year as an abstract function of the instant (its own behaviour: C15 bounded)', 'lemma L2 (row sums and column sums add up to the total), L9 (two increasing enumerations of a finite set coincide) and L10 (row r <-> (r div M, r mod M)) from the lemma library',
+           'numpy.loadtxt returns the numbers written in the file as an (n, 10) table; numpy.unique(.., return_index=True) returns the first-occurrence position of every distinct row; Polygon / CartesianGrid2D / the forecast class are abstract record constructors inside load_ascii (string layer and numpy: assumed)', 'pyvc engine, z3 5.1']
+ASSUMPTIONS = ['proved: the rate lookup get_rates on a forecast over a lattice region (RI) with equally spaced magnitude edges - a point inside the half-open cell of active cell i with a magnitude inside bin k (lower edges included, upper edges excluded up to the documented tolerance, last magnitude bin open) gets the stored rate of (i, k) times the current scale factor; scaling is absolute; marginals add up', 'proved: load_ascii on a CSEP1 file of any C cells x M magnitude bins (magnitude fastest; distinct boxes, distinct lower edges) - polygon c is the box of file cell c in file order with its flag, the magnitudes are the lower edges in file order, data[c, m] is the rate of row c*M + m, the reshape cannot fail; with and without swap_latlon, named or not',
+               'not proved: that the region built from these polygons satisfies RI is the region constructor contract (C01) - the composition load_ascii -> constructor -> get_rates is by contracts, the end-to-end chain on generated files is bounded; quadtree loaders: bounded stand-in only (generated forecast files, every row looked up at its lower corner and centre)']
+EXPLANATION = 'scale(v) replaces the factor and writes nothing else; data == stored rates x current factor; after any two scale calls data == original x last factor (never cumulative); scale_to_test_date sets the documented fraction inside (start, end) and leaves the object untouched outside; marginals are row / column sums; load_ascii maps the file rows to (cell, magnitude bin) in file order for files of any size'
 TECHNIQUE = 'object-invariant contracts and lemmas over the real method bodies (frame conditions by field/closure identity), z3; bounded file round trips'
-LEVEL_TEXT = 'other: scaling and marginal clauses proved for arrays of arbitrary shape; file loading clauses decided by the bounded run-time contract only'
-LEVEL_NOTE = 'loaders bounded only; floats as reals'
+LEVEL_TEXT = 'other: scaling and marginal clauses proved for arrays of arbitrary shape; load_ascii proved over an abstract table (string layer assumed); quadtree loaders and end-to-end file round trips bounded only'
+LEVEL_NOTE = 'quadtree loaders and the numpy string layer bounded / assumed; floats as reals'
